@@ -140,13 +140,16 @@ class Data:
             c.properties = tuple(c.properties)
 
     def __getstate__(self):
-        """Pickle lattice as ``(context, concepts)`` tuple."""
-        return self._context, self._concepts
+        """Pickle lattice as ``(context, lattice)`` tuple with index-based concepts."""
+        return self._context, self._tolist()
 
     def __setstate__(self, state):
-        """Unpickle lattice from ``(context, concepts)`` tuple."""
-        context, concepts = state
-        self._init(self, context, concepts, unpickle=True)
+        """Unpickle lattice from ``(context, lattice)`` tuple with index-based concepts."""
+        context, lattice = state
+        other = self._fromlist(context, lattice, False)
+        for concept in other._concepts:
+            concept.lattice = self
+        self.__dict__.update(other.__dict__)
 
     def _tolist(self):
         return [(tuple(c._extent.iter_set()),
